@@ -30,6 +30,10 @@ def raw_writer_bodies(facts):
             if t.callee is not None and t.callee.trait == ADAPTER_TRAIT and t.callee.name == "write_object":
                 out.append(b)
                 break
+    # ... and the pack writer when it goes through the storage's raw writer
+    pw = roles_of(facts).body("pack_writer")
+    if pw is not None and pw not in out:
+        out.append(pw)
     return out
 
 
@@ -108,6 +112,9 @@ def run(facts, res):
     n2 = 0
     for w in writers:
         wsites = [(bi, t) for bi, t in w.calls() if t.callee is not None and t.callee.trait == ADAPTER_TRAIT and t.callee.name == "write_object"]
+        if not wsites:
+            # the writer goes through the storage's raw writer (role raw_write): that call is the write
+            wsites = [(bi, t) for bi, t in w.calls() if t.callee is not None and t.callee.target() == R.path("raw_write")]
         wcfg = cfg_of(w)
         muts = []
         for bi, t in w.calls():
@@ -116,7 +123,9 @@ def run(facts, res):
                 continue
             if cal.name in MUTATORS:
                 fp, root = field_path(arg_term(w, t, 0))
-                if fp and fp[0] in ("stage", "committed_objects", "applied_pack_ids") and peel(root)[0] == "param":
+                if fp and fp[0] in ("stage", "committed_objects", "applied_pack_ids") and peel(root)[0] == "param" and \
+                        not (cal.name in ("push", "push_str", "extend_from_slice") and fp[0] == "stage"):
+                    # (a push whose receiver merely *derives* from the stage - a buffer filled while iterating it - is not a mutation of it)
                     muts.append((bi, t, fp[0], w))
         for s in cg.sites[w.path]:
             for cb in s.closures:
